@@ -393,6 +393,19 @@ impl Sim {
 		Ok(())
 	}
 
+	/// Amounts below this may have no output on a commitment transaction (dust limit plus HTLC transaction fee
+	/// at twice the highest current feerate estimate): such an HTLC is forfeited when its channel closes on chain.
+	pub fn dust_floor_msat(&self) -> u64 {
+		let mut maxfee = 253u64;
+		for nd in self.w.nodes.iter() {
+			maxfee = maxfee.max(*nd.fee_estimator.sat_per_kw.lock().unwrap() as u64);
+			for (_, v) in nd.fee_estimator.target_override.lock().unwrap().iter() {
+				maxfee = maxfee.max(*v as u64);
+			}
+		}
+		(354 + 703 * 2 * maxfee / 1000 + 1) * 1000
+	}
+
 	/// Serialize the node's ChannelManager now and keep it as a restart candidate.
 	pub fn snapshot_manager(&mut self, node: usize) {
 		use lightning::util::ser::Writeable;
